@@ -7,7 +7,7 @@
    it is (finding F2). *)
 From AV Require Import Base.Prelude Model.GenericLearner Model.Balancing
   Proofs.BalancingProofs Proofs.BalancingOrder Proofs.BalancingCoh Proofs.BalancingStrat
-  Proofs.BalancingProv Proofs.BalancingMain.
+  Proofs.BalancingProv Proofs.BalancingMain Proofs.BalancingTentative.
 
 Section C15.
   Variable L : Learner.
@@ -141,6 +141,87 @@ Section C15.
 End C15.
 
 (* ------------------------------------------------------------------ *)
+(* Histories that also contain the tentative ask, ask(n, tell_pending=False),
+   of the repaired code (it snapshots its caches and _cycle, utils.restore puts
+   the children back).  [child_restore_exact]: the children are put back
+   exactly -- property C09 of the children, assumed here, not established.
+   Under it the tentative ask answers what the committing ask would answer and
+   is the identity on the wrapper's state, so the statements above hold along
+   ALL histories (no [legal] hypothesis). *)
+Section C15_tentative.
+  Variable L : Learner.
+  Hypothesis child_restore_exact : forall old cur : state L, restore L old cur = old.
+
+  Theorem C15_tentative_ask_no_trace : forall (s : bst L) n,
+    (snd (bask true s n false) = snd (bask true s n true) /\
+     failed (fst (bask true s n false)) = failed (fst (bask true s n true))) /\
+    (failed s = false -> failed (fst (bask true s n false)) = false -> fst (bask true s n false) = s).
+  Proof. exact (fun s n => conj (@bask_nc_out L true s n) (@bask_nc_identity L child_restore_exact s n)). Qed.
+
+  Theorem C15_routing_all : forall ks0 st (h : list (op L)) n c i p v,
+    let s := run true (init L ks0 st) h in
+    failed s = false -> failed (fst (bask true s n c)) = false ->
+    In ((i, p), v) (snd (bask true s n c)) ->
+    exists k0, nth_error ks0 i = Some k0 /\ @proposed L k0 p v.
+  Proof. exact (@routing_ask_all L child_restore_exact). Qed.
+
+  Theorem C15_cycle_strategy_all : forall ks st (h : list (op L)) n,
+    ks <> [] ->
+    let s := run true (init L ks st) h in
+    failed s = false -> strat s = SCycle ->
+    failed (fst (bask true s n true)) = false ->
+    map (fun e => fst (fst e)) (snd (bask true s n true)) =
+      map (fun t => (cyc s + t) mod length ks) (seq 0 n) /\
+    cyc (fst (bask true s n true)) = (cyc s + n) mod length ks /\
+    length (snd (bask true s n true)) = n.
+  Proof. exact (@cycle_all L child_restore_exact). Qed.
+
+  Hypothesis child_ask_pure : forall k : state L, snd (ask L k 1 false) = k.
+
+  Theorem C15_cache_coherent_all : forall ks st (h : list (op L)),
+    let s := run true (init L ks st) h in
+    failed s = false ->
+    forall i,
+      (forall v, lcache s i = Some v -> exists k, nth_error (kids s) i = Some k /\ v = loss L k true) /\
+      (forall v, pcache s i = Some v -> exists k, nth_error (kids s) i = Some k /\ v = loss L k false) /\
+      (forall a, acache s i = Some a -> exists k, nth_error (kids s) i = Some k /\ a = fst (ask L k 1 false)).
+  Proof. exact (@cache_coherent_all L child_restore_exact child_ask_pure). Qed.
+
+  Hypothesis num_laws : NumLaws L.
+
+  Theorem C15_loss_is_max_of_children_all : forall ks st (h : list (op L)) real m,
+    let s := run true (init L ks st) h in
+    failed s = false -> snd (bloss s real) = Some m ->
+    (exists k, In k (kids s) /\ m = loss L k real) /\
+    (forall k, In k (kids s) -> nltb L m (loss L k real) = false) /\
+    kids (fst (bloss s real)) = kids s.
+  Proof. exact (@loss_is_max_all L child_restore_exact child_ask_pure num_laws). Qed.
+
+  Theorem C15_improvement_strategy_all : forall ks st (h : list (op L)) n,
+    let s := run true (init L ks st) h in
+    failed s = false -> strat s = SImp ->
+    forall pre tp i p v,
+      In ((pre, tp), ((i, p), v)) (loop_trace (body_of true (strat s)) n s (total_points s)) ->
+      exists ki ps vs, nth_error (kids pre) i = Some ki /\
+        fst (ask L ki 1 false) = (p :: ps, v :: vs) /\
+        forall j kj pj psj vj vsj, nth_error (kids pre) j = Some kj ->
+          fst (ask L kj 1 false) = (pj :: psj, vj :: vsj) ->
+          nltb L v vj = false /\ kgt L (vj, nth j tp 0) (v, nth i tp 0) = false.
+  Proof. exact (@improvement_all L child_restore_exact child_ask_pure num_laws). Qed.
+
+  Theorem C15_loss_strategy_all : forall ks st (h : list (op L)) n,
+    let s := run true (init L ks st) h in
+    failed s = false -> strat s = SLoss ->
+    forall pre tp i p v,
+      In ((pre, tp), ((i, p), v)) (loop_trace (body_of true (strat s)) n s (total_points s)) ->
+      exists ki, nth_error (kids pre) i = Some ki /\
+        forall j kj, nth_error (kids pre) j = Some kj ->
+          nltb L (loss L ki false) (loss L kj false) = false /\
+          kgt L (loss L kj false, nth j tp 0) (loss L ki false, nth i tp 0) = false.
+  Proof. exact (@loss_all L child_restore_exact child_ask_pure num_laws). Qed.
+End C15_tentative.
+
+(* ------------------------------------------------------------------ *)
 (* The code as it is (repaired = false) is NOT cache coherent: F2.
    Witnesses on the toy learner (loss = 10 - known - pending; proposes the
    smallest free natural):
@@ -188,6 +269,27 @@ Example C15_example :
   snd (bloss (run true (init TL [Toy.init] SImp) F2a) false) = Some 9.
 Proof. vm_compute. repeat split. Qed.
 
+(* non-vacuity of [child_restore_exact]: the toy learner with an exact snapshot;
+   a tentative ask(2) in the middle of a history answers like the committing
+   one and leaves the state untouched *)
+Definition TLx : Learner :=
+  @mkLearner Toy.tst nat nat nat (list (nat * nat)) Nat.eqb Nat.ltb Nat.eqb 1000
+    (ask TL) (GenericLearner.tell TL) (GenericLearner.tell_pending TL) (remove_unfinished TL)
+    (loss TL) (npoints TL) (data TL) (pending TL) (fun old cur => old) (get_data TL) (set_data TL).
+
+Example C15_tentative_example :
+  let h : list (op TLx) := [SetStrategy SLoss; Ask 3 true; @Tell TLx 0 0 7; Loss false; Ask 2 false; Loss false] in
+  let s := run true (init TLx [Toy.init; Toy.init] SImp) (firstn 4 h) in
+  (forall old cur : state TLx, restore TLx old cur = old) /\
+  fst (bask true s 2 false) = s /\
+  map fst (snd (bask true s 2 false)) = map fst (snd (bask true s 2 true)) /\
+  snd (bloss (run true (init TLx [Toy.init; Toy.init] SImp) h) false) = Some 9.
+Proof.
+  cbv zeta. split; [reflexivity|]. split.
+  - apply (proj2 (@C15_tentative_ask_no_trace TLx (fun old cur => eq_refl) _ 2)); vm_compute; reflexivity.
+  - vm_compute. split; reflexivity.
+Qed.
+
 Print Assumptions C15_routing.
 Print Assumptions C15_aggregates.
 Print Assumptions C15_npoints_strategy.
@@ -198,3 +300,10 @@ Print Assumptions C15_loss_is_max_of_children.
 Print Assumptions C15_improvement_strategy.
 Print Assumptions C15_loss_strategy.
 Print Assumptions C15_cache_coherent_refuted_unfixed.
+Print Assumptions C15_tentative_ask_no_trace.
+Print Assumptions C15_routing_all.
+Print Assumptions C15_cycle_strategy_all.
+Print Assumptions C15_cache_coherent_all.
+Print Assumptions C15_loss_is_max_of_children_all.
+Print Assumptions C15_improvement_strategy_all.
+Print Assumptions C15_loss_strategy_all.
